@@ -157,8 +157,11 @@ def grad_stage(p, res):
     values = {"power": [0.05, 2.0], "snr": [3.0, 25.0, 0.0], "none": [None]}[par]        # (0 dB: a legal value that is falsy in Python)
     for val in values:
         ch = make_stage(st, par, val)
-        for shape in ((2, 6), (3, 2, 4)):
+        for shape in ((2, 6), (3, 2, 4), (2, 150)):
             for k in range(5 if p["tier"] == "thorough" else 3):
+                if shape == (2, 150) and (k > 0 or val != values[0] or par == "snr"):
+                    continue           # one input of 300 elements (a count that is neither small nor a multiple of 16) per stage, noise by power / none
+                                       # (in SNR mode the library rounds the signal-dependent noise scale to float32: 2.3e-3 relative on 300 elements)
                 cfg = f"{par}={val},{'complex128' if cplx else 'float64'},shape={'x'.join(map(str, shape))},input{k}"
                 parts = [inputs(shape, k)] + ([inputs(shape, k + 7, 0.8)] if cplx else [])
 
@@ -166,8 +169,16 @@ def grad_stage(p, res):
                     x = torch.complex(ps[0], ps[1]) if cplx else ps[0]
                     with Seam(Frozen(99)):
                         return ch(x)
+                def fn_reseeded(ps):
+                    # the fixed noise realisation obtained WITHOUT the seam (re-seeding torch's own generator before every evaluation): the seam answers
+                    # torch.normal(mean, std) as mean + std * z, which would lend differentiability to a sampler that has none
+                    x = torch.complex(ps[0], ps[1]) if cplx else ps[0]
+                    torch.manual_seed(20261003)
+                    return ch(x)
                 try:
                     compare(fn, parts, res, st, cfg)
+                    if k == 0:
+                        compare(fn_reseeded, parts, res, st, cfg + ",reseeded")
                 except Exception as e:  # noqa: BLE001
                     res.viol(st, cfg, "raises", f"{type(e).__name__}: {str(e)[:200]}")
                     break
